@@ -233,6 +233,17 @@ class Gen:
         if kind in WITH_INVS and rng.random() < 0.4:
             invs = [self.contract("inv", ["self"], user, allow_fancy=False, self_only=True)
                     for _ in range(rng.choice([1, 1, 2]))]
+        invs_set = []
+        if invs is not None:
+            for c in invs:
+                if rng.random() < 0.3:
+                    c["check_on"] = "ALL"
+            if rng.random() < 0.5:
+                # invariants for attribute assignments only: after the constructor, never around a call
+                invs_set = [self.contract("inv", ["self"], user, allow_fancy=False, self_only=True)
+                            for _ in range(rng.choice([1, 1, 2]))]
+                for c in invs_set:
+                    c["check_on"] = "SETATTR"
         # truth assignment
         groups = [lv["pre"] for lv in levels if lv["pre"]]
         sat_group = rng.randrange(len(groups)) if groups else None
@@ -250,7 +261,7 @@ class Gen:
             for c in lv["post"]:
                 ra = self.cond_result("pass" if depth == "all_ok" else "any")
                 user["cond"][str(c["cid"])] = [ra, ra]
-        for c in invs or []:
+        for c in (invs or []) + invs_set:
             rb = self.cond_result("pass" if depth in ("pre_ok", "all_ok") else "any")
             ra = self.cond_result("pass" if depth == "all_ok" and rng.random() < 0.7 else "any")
             user["cond"][str(c["cid"])] = [rb, ra]
@@ -273,7 +284,7 @@ class Gen:
         if objtags and rng.random() < 0.6:
             body["mutate"] = {str(rng.choice(objtags)): rng.randrange(10, 20)}
         user["body"] = body
-        case = {"kind": kind, "async": is_async, "sig": sig, "levels": levels, "invs": invs, "args": args,
+        case = {"kind": kind, "async": is_async, "sig": sig, "levels": levels, "invs": invs, "invs_set": invs_set, "args": args,
                 "kwargs": kwargs, "user": user, "store": store, "interleave": rng.randrange(0, 4)}
         if kind not in ("function", "init", "new") and len(levels) >= 2 and rng.random() < 0.2:
             case["diamond"] = True      # the root's contracts are inherited along two paths
@@ -409,9 +420,11 @@ def cq_case(case):
         C.cq_list([cq_contract(c) for c in lv["pre"]]), C.cq_list([cq_snapshot(s) for s in lv["snaps"]]),
         C.cq_list([cq_contract(c) for c in lv["post"]])) for lv in lvs])
     invs = C.cq_opt(case["invs"], lambda l: C.cq_list([cq_contract(c) for c in l]))
-    return ("{| k_kind := %s; k_mode := %s; k_sig := %s; k_levels := %s; k_invs := %s; k_args := %s; "
+    return ("{| k_kind := %s; k_mode := %s; k_sig := %s; k_levels := %s; k_invs := %s; k_invs_all := %s; k_invs_set := %s; k_args := %s; "
             "k_kwargs := %s; k_tables := %s; k_store := %s |}" % (
                 KIND_CQ[case["kind"]], "Async" if case["async"] else "Sync", cq_sig(fsig), levels, invs,
+                C.cq_list(["%d" % c["cid"] for c in (case["invs"] or []) if c.get("check_on") == "ALL"]),
+                C.cq_list([cq_contract(c) for c in case.get("invs_set", [])]),
                 C.cq_list([cq_val(v) for v in args]), cq_kw(list(case["kwargs"].items())),
                 cq_tables(case["user"]), cq_store(case["store"])))
 
